@@ -135,7 +135,7 @@ func (s *c14Scenario) serial(first int) (string, [2]int) {
 func checkC14(c *Ctx) {
 	c.Rule = "controlled two-activity scheduler: one API request and one poll step (1-3 board messages) run in goroutines on the same real node service; every State/Storage call first asks for the baton. All schedules with at most 2 (quick) / 3 (thorough) pre-emptions are enumerated per (request kind, message kind) scenario, each replayed from a snapshot; the final logical state (operation pool, tombstones, round projections, signature stores, offset, messages posted; ids/times masked) must equal the final state of one of the two serial orders. Thorough adds a free-running soak of the same pairs on real LevelDB with the real Poll() under the Go race detector. distinct = distinct executed interleavings (grant traces)"
 	c.Assumptions = []string{"MemState (one lock per call, like LevelDBState.Get/Set) for the enumerated schedules; LevelDBState itself only in the race soak", "scheduling granularity = State/Storage interface calls"}
-	builders := []func(seed uint64) (*c14Scenario, error){scnSubmitVsProposal, scnApproveVsOtherRound, scnReinitFinishVsOtherRound, scnResetVsPoll, scnSaveOffsetVsPoll, scnSubmitVsSameRound, scnSubmitVsSignatures}
+	builders := []func(seed uint64) (*c14Scenario, error){scnSubmitVsProposal, scnApproveVsOtherRound, scnReinitFinishVsOtherRound, scnResetVsPoll, scnSaveOffsetVsPoll, scnSubmitVsSameRound, scnSubmitVsSignatures, scnReinitFinishVsSameRoundProposal}
 	maxPre := c.Pick(2, 3)
 	Parallel(len(builders), 8, func(bi int) {
 		s, err := builders[bi](c.Seed*1000 + uint64(bi))
@@ -366,6 +366,33 @@ func scnReinitFinishVsOtherRound(seed uint64) (*c14Scenario, error) {
 	s := &c14Scenario{Name: "finish-reinit||poll-other-rounds-proposal", W: w, V: v, Snap: v.Mem.Snapshot(), Board: w.Board.Len(), Closer: closer}
 	s.API = func() error { return v.Svc.ProcessOperation(world.OpToDTO(res)) }
 	s.Poll = func() error { _, err := v.PollStep(0); return err }
+	return s, nil
+}
+
+// finish a reinitialisation while the poller applies a signing proposal of the SAME round
+func scnReinitFinishVsSameRoundProposal(seed uint64) (*c14Scenario, error) {
+	s, err := scnReinitFinishVsOtherRound(seed)
+	if err != nil {
+		return nil, err
+	}
+	w := s.W
+	// drop the other round's proposal; instead node 0 (already through its own replay, hence signing-idle)
+	// proposes a batch for the reinitialised round
+	w.Board.Truncate(s.Board - 1)
+	var round string
+	for _, o := range w.PendingOps(s.V) {
+		if string(o.Type) == "reinit_dkg" {
+			round = o.DKGIdentifier
+		}
+	}
+	_, _ = w.Nodes[0].PollStep(0)
+	if err := w.ProposeSign(0, round, map[string][]byte{"after-reinit": []byte("x")}, nil); err != nil {
+		s.Closer()
+		return nil, fmt.Errorf("peer cannot propose: %w", err)
+	}
+	s.Name = "finish-reinit||poll-signing-proposal-of-same-round"
+	s.Snap = s.V.Mem.Snapshot()
+	s.Board = w.Board.Len()
 	return s, nil
 }
 
